@@ -29,6 +29,11 @@ def strategy(tier, unit):
                                   "sf_first": st.one_of(st.none(), st.tuples(S.fl(-3, 3), S.fl(0, 4)).map(list))})
 
 
+def harness_scribble(x):
+    from vlib import harness as _h
+    _h.scribble(x)
+
+
 def _f(c, s):
     return sum(c[i] * math.exp(-c[i + 4] * s * s) for i in range(4)) + c[8]
 
@@ -157,6 +162,19 @@ def check(case, ctx):
         else:
             ctx.near("FormFactor=formula(array)", float(np.max(np.abs(vals - refv) / np.abs(refv))), 1e-13, "FormFactor/formula/" + el, "%s: FormFactor on an array differs from the formula" % el)
         ctx.event("array-argument")
+        if vals is not None and not big:
+            # the caller keeps ONE array of s values and refills it in place (next detector ring); it also owns the result
+            hold = np.array(grid, float)
+            first = structure.FormFactor(el, hold)
+            harness_scribble(first)
+            hold[...] = np.clip(2.0 - hold, 0.0, 2.0)
+            again = np.asarray(structure.FormFactor(el, hold), float)
+            ref2 = np.array([_f(c, float(x)) for x in hold.ravel()]).reshape(hold.shape)
+            if again.shape != ref2.shape:
+                ctx.fail("FormFactor/array-shape", "%s: FormFactor(array) returned shape %r" % (el, again.shape))
+            else:
+                ctx.near("FormFactor=formula(array refilled in place)", float(np.max(np.abs(again - ref2) / np.abs(ref2))), 1e-13, "FormFactor/formula/" + el,
+                         "%s: FormFactor on an array that was refilled in place differs from the formula" % el)
         how = "float"
     sarg = s
     if how == "numpy":
